@@ -290,6 +290,17 @@ func (state inSession) processReject(session *session, msg *Message, rej Message
 	case targetTooHigh:
 
 		var nextState resendState
+		// A recovery in progress may be wrapped while a test request is pending: keep its
+		// range and stash rather than starting a second ResendRequest.
+		if pending, ok := session.State.(pendingTimeout); ok {
+			if wrapped, ok := pending.sessionState.(resendState); ok {
+				if wrapped.messageStash == nil {
+					wrapped.messageStash = make(map[int]*Message)
+				}
+				wrapped.messageStash[TypedError.ReceivedTarget] = msg
+				return wrapped
+			}
+		}
 		switch currentState := session.State.(type) {
 		case resendState:
 			// Assumes target too high reject already sent.
